@@ -9,7 +9,12 @@ import re
 import shutil
 import vcommon as vc
 
-RULE = ("histories of 1-3 sessions (H/V level, SD, GR) on one file, 4-14 building operations per session drawn from "
+RULE = ("histories of 1-3 sessions (H/V level, SD, GR, DFSD) on one file, later sessions EDIT objects of earlier ones (one "
+        "Hwrite into a linked-block element across existing block-table boundaries with new blocks after the crossing, "
+        "vgroup members removed first/middle/last with and without deleting the object, vdata and unlimited data sets "
+        "appended, two unlimited data sets with different record counts, old-style label/unit/format strings with "
+        "empty dimensions, SD attributes and annotations); just before every close the writing session's own reads are "
+        "dumped and must equal h4read's view of the closed bytes; 4-14 building operations per session drawn from "
         "one PRNG (VERIF_SEED): Hputelement, HLcreate with 1-4 writes (block lengths 1..9, table sizes 1..4), appends "
         "that promote an element to linked blocks, HXcreate, HCcreate (none/RLE/n-bit/skipping-Huffman/deflate), "
         "linked blocks written at positions (rewrites, seeks past the end that leave never-written blocks), "
@@ -79,13 +84,20 @@ class Gen:
         self.exts = []
         self.napp = 0
         self.aliased = set()   # elements that have an alias: never appended to (see ASSUMPTIONS)
+        self.lbinfo = {}       # linked-block elements made by 'lb'/'lbs': (tag, ref) -> (bl, nb, length)
+        self.vgmem = {}        # vgroup slot -> current number of members
+        self.vglist = {}       # vgroup slot -> member keys in order: ('vs', i) / ('vg', i) / (tag, ref)
+        self.dead = set()      # member keys whose object was deleted
+        self.members = set()   # (tag, ref) named by some vgroup: never deleted behind the vgroup's back
+        self.nsds = 0          # data sets in the file, in SDselect order
+        self.unlim = {}        # index -> (nt, rank, dims incl. current records)
         self.touched_after_close = {}
 
     def newref(self, tag):
         self.refs[tag] = self.refs.get(tag, 0) + 1
         return self.refs[tag]
 
-    def h_session(self, F, snap_to=None, knobs=None):
+    def h_session(self, F, snap_to=None, knobs=None, edit=False):
         r = self.r
         L = self.lines
         L.append("hopen %d %d %d" % (F, r.choice([4, 5, 16]), r.choice([0, 1, 1])))
@@ -96,6 +108,9 @@ class Gen:
             tag = r.choice([1100, 1101, 1102, 1103])
             if knobs:
                 k = r.choice(knobs)
+            if edit and r.random() < 0.45:
+                self.edit_op(F)
+                continue
             if k < 0.14:
                 ref = self.newref(tag)
                 L.append("put %d %d %d %s" % (F, tag, ref, hexs(rbytes(r, r.choice([0, 1, 2, 5, 9, 16, 33, 60])))))
@@ -108,6 +123,7 @@ class Gen:
                 ws = [hexs(rbytes(r, r.choice([1, bl, bl + 1, bl * nb, bl * nb + 1, r.randrange(1, 3 * bl * nb + 2)]))) for _ in range(nw)]
                 L.append("lb %d %d %d %d %d %d %s" % (F, tag, ref, bl, nb, nw, " ".join(ws)))
                 self.any.append((tag, ref))
+                self.lbinfo[(tag, ref)] = (bl, nb, sum(0 if w == "-" else len(w) // 2 for w in ws))
             elif k < 0.33:
                 # linked blocks written at positions: backwards rewrites, and seeks past the end that leave holes
                 ref = self.newref(tag)
@@ -126,6 +142,7 @@ class Gen:
                     t, rf = r.choice(cand)
                     L.append("app %d %d %d %s" % (F, t, rf, hexs(rbytes(r, r.choice([1, 3, 8])))))
                     self.napp += 1
+                    self.members.add((t, rf))   # may have become linked blocks: Hdeldd would leave them behind
             elif k < 0.42:
                 ref = self.newref(tag)
                 nm = "x%d_%s.dat" % (len(self.exts), self.lines[0].split()[1])
@@ -166,7 +183,7 @@ class Gen:
                     L.append("dup %d %d %d %d %d" % (F, t, nr, t, rf))
                     self.aliased.add((t, rf))
             elif k < 0.72:
-                cand = [e for e in self.plain if e not in self.any[:0]]
+                cand = [e for e in self.plain if e not in self.members]
                 if cand and r.random() < 0.5:
                     t, rf = r.choice(cand)
                     L.append("del %d %d %d" % (F, t, rf))
@@ -208,15 +225,29 @@ class Gen:
                 if self.vg < 14:
                     nm = r.choice([0, 0, 1, 2, 3, 6])
                     ms = []
+                    keys = []
                     for _ in range(nm):
                         kind = r.choice([0, 1, 2])
                         if kind == 0 and self.vs:
-                            ms.append("0 %d 0" % r.randrange(self.vs))
+                            key = ("vs", r.randrange(self.vs))
                         elif kind == 1 and self.vg:
-                            ms.append("1 %d 0" % r.randrange(self.vg))
+                            key = ("vg", r.randrange(self.vg))
                         elif self.any:
-                            t, rf = r.choice(self.any)
-                            ms.append("2 %d %d" % (t, rf))
+                            key = r.choice(self.any)
+                        else:
+                            continue
+                        if key in keys or key in self.dead:
+                            continue
+                        keys.append(key)
+                        if key[0] == "vs":
+                            ms.append("0 %d 0" % key[1])
+                        elif key[0] == "vg":
+                            ms.append("1 %d 0" % key[1])
+                        else:
+                            ms.append("2 %d %d" % key)
+                            self.members.add(key)
+                    self.vgmem[self.vg] = len(ms)
+                    self.vglist[self.vg] = keys
                     name = r.choice(["", "g", "group%d" % self.vg, "G" * 70])
                     cls = r.choice(["", "c", "gclass", "C" * 65])
                     L.append("vg %d %d %s %s %d %s" % (F, self.vg, hx(name), hx(cls), len(ms), " ".join(ms)))
@@ -237,17 +268,144 @@ class Gen:
                 L.append("put %d 1100 %d %s" % (F, ref, hexs(rbytes(r, 7))))
         L.append("hclose %d" % F)
 
-    def sd_session(self, F):
+
+    def edit_op(self, F):
+        """change an object that exists already (made in this or an earlier session)"""
+        r = self.r
+        L = self.lines
+        c = r.random()
+        has_vg = any(v > 0 for v in self.vgmem.values())
+        if c < (0.35 if has_vg else 0.6) and self.lbinfo:
+            # rewrite a linked-block element: start inside an earlier block table, cross table boundaries that exist
+            # already and go on past the end (new blocks / tables allocated after the crossing); or leave a hole
+            (t, rf), (bl, nb, ln) = r.choice(sorted(self.lbinfo.items()))
+            tbl = bl * nb
+            ntab = (ln + tbl - 1) // tbl if ln else 0
+            if ntab >= 2 and r.random() < 0.7:
+                pos = r.randrange(0, (ntab - 1) * tbl)
+                end = ln + r.choice([1, bl, bl + 1, tbl, tbl + bl, 2 * tbl + 1])
+            else:
+                pos = r.choice([0, max(0, ln - 1), ln, ln + r.choice([1, bl, tbl])])
+                end = pos + r.choice([1, bl, tbl + 1, 2 * tbl + bl])
+            n = max(1, min(end - pos, 400))
+            L.append("lbw %d %d %d 1 %d %s" % (F, t, rf, pos, hexs(rbytes(r, n))))
+            self.lbinfo[(t, rf)] = (bl, nb, max(ln, pos + n))
+        elif c < 0.85 and has_vg:
+            slot = r.choice([k for k, v in self.vgmem.items() if v > 0])
+            which = r.choice([0, 1, 2, 2, 2])
+            keys = self.vglist[slot]
+            idx = 0 if which == 0 else (len(keys) // 2 if which == 1 else len(keys) - 1)
+            key = keys.pop(idx)
+            # the object itself is deleted only when no other vgroup names it (no deliberately dangling members)
+            shared = any(key in l_ for l_ in self.vglist.values())
+            delobj = 0 if (shared or key[0] == "vg" or key in self.aliased) else r.choice([0, 1, 1])
+            L.append("vgdel %d %d %d %d" % (F, slot, which, delobj))
+            self.vgmem[slot] -= 1
+            if delobj:
+                self.dead.add(key)
+                if key[0] == "vs":
+                    getattr(self, "vsinfo", {}).pop(key[1], None)
+                else:
+                    for lst in (self.any, self.plain):
+                        if key in lst:
+                            lst.remove(key)
+                    self.lbinfo.pop(key, None)
+        else:
+            cands = [s_ for s_, (nf, rec) in getattr(self, "vsinfo", {}).items() if nf > 0]
+            if cands:
+                s_ = r.choice(cands)
+                nrec = r.choice([1, 3, 9])
+                L.append("vsapp %d %d %d %s" % (F, s_, nrec, hexs(rbytes(r, nrec * self.vsinfo[s_][1]))))
+
+    def vg_session(self, F):
+        """vdatas, plain elements and vgroups naming them: material for later sessions that remove members"""
+        r = self.r
+        L = self.lines
+        L.append("hopen %d %d %d" % (F, r.choice([4, 16]), r.choice([0, 1])))
+        for _ in range(r.choice([2, 3])):
+            ref = self.newref(1100)
+            L.append("put %d 1100 %d %s" % (F, ref, hexs(rbytes(r, r.choice([2, 9])))))
+            self.plain.append((1100, ref))
+            self.any.append((1100, ref))
+        for _ in range(r.choice([1, 2, 3])):
+            if self.vs < 14:
+                L.append("vs %d %d 0 0 1 %s 21 2 %s %s 2 %s" % (F, self.vs, hx("f"), hx("vd%d" % self.vs), hx("c"), hexs(rbytes(r, 4))))
+                self.vsinfo = getattr(self, "vsinfo", {})
+                self.vsinfo[self.vs] = (1, 2)
+                self.vs += 1
+        for _ in range(r.choice([2, 3])):
+            if self.vg < 14:
+                ms, keys = [], []
+                for _ in range(r.choice([1, 2, 3, 4])):
+                    key = ("vs", r.randrange(self.vs)) if (r.random() < 0.5 and self.vs) else r.choice(self.any)
+                    if key in keys or key in self.dead:
+                        continue
+                    keys.append(key)
+                    if key[0] == "vs":
+                        ms.append("0 %d 0" % key[1])
+                    else:
+                        ms.append("2 %d %d" % key)
+                        self.members.add(key)
+                self.vglist[self.vg] = keys
+                L.append("vg %d %d %s %s %d %s" % (F, self.vg, hx("grp%d" % self.vg), hx("k"), len(ms), " ".join(ms)))
+                self.vgmem[self.vg] = len(ms)
+                self.vg += 1
+        L.append("hclose %d" % F)
+
+    def lb_tables_session(self, F):
+        """several block tables with free slots in the last one, then rewrites across the existing boundaries"""
+        r = self.r
+        L = self.lines
+        L.append("hopen %d %d %d" % (F, r.choice([4, 16]), r.choice([0, 1])))
+        for _ in range(r.choice([1, 2])):
+            tag = r.choice([1100, 1101])
+            ref = self.newref(tag)
+            bl, nb = r.choice([2, 3, 4, 8, 16]), r.choice([2, 3, 4])
+            k = r.randrange(1, nb)                      # blocks used in the last table
+            ntab = r.choice([2, 2, 3])
+            ln = bl * (nb * (ntab - 1) + k) - r.choice([0, 0, 1])
+            L.append("lb %d %d %d %d %d 1 %s" % (F, tag, ref, bl, nb, hexs(rbytes(r, ln))))
+            self.any.append((tag, ref))
+            self.lbinfo[(tag, ref)] = (bl, nb, ln)
+            if r.random() < 0.5:
+                L.append("put %d 1102 %d %s" % (F, self.newref(1102), hexs(rbytes(r, 5))))
+        if r.random() < 0.5:
+            for _ in range(r.choice([1, 2])):
+                self.edit_op(F)
+        L.append("hclose %d" % F)
+
+    def sd_session(self, F, two_unlimited=False):
         r = self.r
         L = self.lines
         L.append("sdstart %d" % F)
-        for i in range(r.choice([1, 1, 2, 3])):
+        if r.random() < 0.3:
+            L.append("sdattr %s 21 2 %s" % (hx("fileatt%d" % r.randrange(3)), hexs(rbytes(r, 2))))
+        # append records to data sets with an unlimited dimension made in an earlier session
+        for idx, (nt, rank, dims) in sorted(self.unlim.items()):
+            if r.random() < 0.6:
+                add = r.choice([1, 2, 3])
+                n = NT[nt] * add
+                for e in dims[1:]:
+                    n *= e
+                L.append("sdselect %d" % idx)
+                L.append("sdwrite %s %s %s" % (" ".join(map(str, [dims[0]] + [0] * (rank - 1))),
+                                               " ".join(map(str, [add] + dims[1:])), hexs(rbytes(r, n))))
+                L.append("sdendaccess")
+                self.unlim[idx] = (nt, rank, [dims[0] + add] + dims[1:])
+        plan = [None] * r.choice([1, 1, 2, 3])
+        if two_unlimited:
+            plan = ["unlim", "unlim"] + [None] * r.choice([0, 1])
+        for want in plan:
             nt = r.choice([20, 21, 22, 23, 24, 5, 6])
             rank = r.choice([1, 2, 2, 3])
             dims = [r.choice([1, 2, 3, 4, 5, 6]) for _ in range(rank)]
-            layout = r.choice(["contig", "contig", "chunk", "chunk", "chunkcomp", "comp", "unlim", "nodata"])
+            layout = want or r.choice(["contig", "contig", "chunk", "chunk", "chunkcomp", "comp", "unlim", "nodata"])
             unl = layout == "unlim"
-            L.append("sdcreate %s %d %d %s" % (hx("sds%d_%d" % (F, r.randrange(1000))), nt, rank,
+            if two_unlimited and unl:
+                dims[0] = r.choice([1, 2, 3, 4, 5, 6, 7])
+            my_index = self.nsds
+            self.nsds += 1
+            L.append("sdcreate %s %d %d %s" % (hx("sds%d_%d" % (F, my_index)), nt, rank,
                                              " ".join(map(str, [0 if (unl and k == 0) else d for k, d in enumerate(dims)]))))
             if r.random() < 0.3:
                 L.append("sdfill %s" % hexs(rbytes(r, NT[nt])))
@@ -261,7 +419,7 @@ class Gen:
             elif unl and r.random() < 0.6:
                 L.append("sdblk %d" % r.choice([8, 16, 64]))
             if layout != "nodata":
-                whole = layout in ("comp",) or r.random() < 0.6
+                whole = layout in ("comp", "unlim") or r.random() < 0.6
                 if whole:
                     st, ed = [0] * rank, list(dims)
                 else:
@@ -271,17 +429,53 @@ class Gen:
                 for e in ed:
                     n *= e
                 L.append("sdwrite %s %s %s" % (" ".join(map(str, st)), " ".join(map(str, ed)), hexs(rbytes(r, n))))
-                if unl and r.random() < 0.5:
-                    st2 = [dims[0] + r.choice([0, 1])] + [0] * (rank - 1)
-                    ed2 = [1] + dims[1:]
-                    n = NT[nt]
-                    for e in ed2:
-                        n *= e
-                    L.append("sdwrite %s %s %s" % (" ".join(map(str, st2)), " ".join(map(str, ed2)), hexs(rbytes(r, n))))
-            if r.random() < 0.3:
-                L.append("sdattr %s 21 3 %s" % (hx("att"), hexs(rbytes(r, 3))))
+                if unl:
+                    recs = dims[0]
+                    if r.random() < 0.5:
+                        ed2 = [r.choice([1, 2])] + dims[1:]
+                        n = NT[nt]
+                        for e in ed2:
+                            n *= e
+                        L.append("sdwrite %s %s %s" % (" ".join(map(str, [recs] + [0] * (rank - 1))),
+                                                       " ".join(map(str, ed2)), hexs(rbytes(r, n))))
+                        recs += ed2[0]
+                    self.unlim[my_index] = (nt, rank, [recs] + dims[1:])
+            if r.random() < 0.4:
+                L.append("sdattr %s 21 3 %s" % (hx("att%d" % r.randrange(3)), hexs(rbytes(r, 3))))
+            if r.random() < 0.25 and layout != "nodata":
+                # a named dimension with an attribute: stored with the dimension's coordinate variable
+                j = r.randrange(rank)
+                L.append("sddimname %d %s" % (j, hx("dim%d_%d" % (my_index, j))))
+                L.append("sddimattr %d %s 21 2 %s" % (j, hx("dimatt"), hexs(rbytes(r, 2))))
+                self.nsds += 1          # the coordinate variable takes an index of its own
             L.append("sdendaccess")
         L.append("sdend")
+        if r.random() < 0.3 and self.nsds:
+            cand = [i for i in range(self.nsds)]
+            L.append("sdann %d %d %d %s" % (F, 0, r.choice([0, 1, 2, 3, 2, 3]), hexs(rbytes(r, r.choice([1, 6, 20])))))
+
+    def dfsd_session(self, F):
+        """data sets written through the old DFSD interface: label / unit / format strings of the data set and of
+        every dimension, some dimensions without strings (also after dimensions that have them)"""
+        r = self.r
+        L = self.lines
+        for _ in range(r.choice([1, 1, 2])):
+            nt = r.choice([21, 22, 24, 5])
+            rank = r.choice([1, 2, 3, 3])
+            dims = [r.choice([1, 2, 3, 4]) for _ in range(rank)]
+
+            def strs(p_empty):
+                if r.random() < p_empty:
+                    return "- - -"
+                return " ".join(hx(w) if r.random() < 0.8 else "-" for w in
+                                (r.choice(["Temp", "Latitude", "x", "Depth below"]), r.choice(["K", "degrees_north", "m"]),
+                                 r.choice(["F7.2", "I4", "E10.3"])))
+            n = NT[nt]
+            for d in dims:
+                n *= d
+            L.append("dfsd %d %d %d %s %s %s %s" % (F, nt, rank, " ".join(map(str, dims)), strs(0.2),
+                                                    " ".join(strs(0.45) for _ in range(rank)), hexs(rbytes(r, n))))
+            self.nsds += 1
 
     def gr_session(self, F):
         r = self.r
@@ -307,16 +501,26 @@ class Gen:
 
 def gen_history(r, name, knobs=None):
     g = Gen(r, name)
-    sessions = r.choice([["h"], ["h"], ["h", "h"], ["sd"], ["gr"], ["h", "sd"], ["sd", "h"], ["h", "gr"], ["gr", "sd"],
-                         ["h", "sd", "gr"], ["sd", "gr", "h"]])
+    sessions = r.choice([["h"], ["h", "h"], ["h", "he"], ["h", "he", "he"], ["lbt", "he"], ["lbt"], ["lbt", "he", "he"],
+                         ["sd"], ["gr"], ["h", "sd"], ["sd", "h"], ["h", "gr"], ["gr", "sd"], ["sd", "sd"], ["sd2", "sd"],
+                         ["sd2"], ["sd2", "sd", "sd"], ["vgs", "he"], ["vgs", "he", "he"], ["vgs", "he"], ["h", "sd", "gr"], ["sd", "gr", "he"], ["dfsd"], ["dfsd", "h"],
+                         ["h", "dfsd"], ["dfsd"]])
     snapped = False
     for s in sessions:
-        if s == "h":
-            st = 1 if (not snapped and r.random() < 0.35) else None
+        if s in ("h", "he"):
+            st = 1 if (not snapped and r.random() < 0.3) else None
             snapped = snapped or st is not None
-            g.h_session(0, snap_to=st, knobs=knobs)
+            g.h_session(0, snap_to=st, knobs=knobs, edit=(s == "he"))
+        elif s == "lbt":
+            g.lb_tables_session(0)
+        elif s == "vgs":
+            g.vg_session(0)
         elif s == "sd":
             g.sd_session(0)
+        elif s == "sd2":
+            g.sd_session(0, two_unlimited=True)
+        elif s == "dfsd":
+            g.dfsd_session(0)
         else:
             g.gr_session(0)
     g.lines.append("verify 0")
@@ -375,7 +579,7 @@ def run_S(ctx, wd, hists, per):
             slot = t[1]
             path = os.path.join(wd, "%s_%s.hdf" % (name, slot))
             cmds.append("image " + path)
-            cmds += ["dump", "vdump", "blocks", "dds", "reencode"]
+            cmds += ["dump", "vdump", "blocks", "dds", "reencode", "sdcheck", "orphans"]
             linked = set()
             for rl in R:
                 u = rl.split()
@@ -420,7 +624,7 @@ def mem_owner(h):
         elif t[0] == "snap":
             grp += 1
             owner[t[2]] = grp
-        elif t[0] in ("sdstart", "grstart"):
+        elif t[0] in ("sdstart", "grstart", "dfsd", "sdann"):
             owner.pop(t[1], None)
         elif t[0] == "hopen":
             owner.pop(t[1], None)
@@ -435,17 +639,23 @@ def compare(h, R, per_s):
     if any(l.startswith("crash") for l in R):
         c = [l for l in R if l.startswith("crash")][0]
         bad.append(("crash", "the library crashed while building or dumping the file (%s)" % c))
-    # MEM groups in order
-    groups, curg = [], None
+    # groups, one per hclose / snap, in order: what the writing session read just before (PRE*) and its in-memory
+    # directory (MEM)
+    groups, cur = [], None
     for l in R:
         u = l.split()
-        if len(u) > 1 and u[1] == "MEM":
-            if curg is None:
-                curg = []
-                groups.append(curg)
-            curg.append(u[2:])
-        else:
-            curg = None
+        if len(u) > 1 and u[1] in ("PRE", "PREVH", "PREVG"):
+            if cur is None or cur["mem"]:
+                cur = {"pre": [], "mem": []}
+                groups.append(cur)
+            cur["pre"].append(" ".join(u[1:]))
+        elif len(u) > 1 and u[1] == "MEM":
+            if cur is None:
+                cur = {"pre": [], "mem": []}
+                groups.append(cur)
+            cur["mem"].append(u[2:])
+        elif cur is not None and cur["mem"]:
+            cur = None
     owner = mem_owner(h)
     for l in h:
         t = l.split()
@@ -497,8 +707,14 @@ def compare(h, R, per_s):
                 stats[pfx] += 1
                 if RV.get(k) != SV.get(k):
                     bad.append((pfx, "%s %s: library %s, h4read %s" % (pfx, k[0], " ".join(RV.get(k, ["-"]))[:160], " ".join(SV.get(k, ["-"]))[:160])))
-        RD = [x for x in Rl if x.startswith("DI ")]
-        SD_ = [x for x in S if x.startswith("DI ")]
+        def canon(x):
+            u = x.split()
+            if len(u) > 1 and u[1] in ("ANNF", "ANNS") and "=" in u:
+                i = u.index("=")
+                u = u[:i + 2] + sorted(u[i + 2:], key=lambda e: tuple(map(int, e.split(":"))))
+            return " ".join(u)
+        RD = [canon(x) for x in Rl if x.startswith("DI ")]
+        SD_ = [canon(x) for x in S if x.startswith("DI ")]
         for i, x in enumerate(RD):
             stats["DI"] += 1
             y = SD_[i] if i < len(SD_) else "DI <missing>"
@@ -530,17 +746,79 @@ def compare(h, R, per_s):
                 stats["DM"] = stats.get("DM", 0) + 1
                 if u[6:] != DM[(u[2], u[3], u[4])]:
                     bad.append(("model", "HLgetdatainfo model: library '%s', model '%s'" % (" ".join(u[6:])[:120], " ".join(DM[(u[2], u[3], u[4])])[:120])))
-        # directory in memory at close time == directory parsed from the bytes
+        # every tag/ref a Vgroup record names exists in the file (the generator never deletes an object behind a
+        # vgroup's back; SD data elements named before any data is written are the one legitimate exception)
+        made = set()
+        purposely = False
+        for hl in h:
+            ht = hl.split()
+            if ht[0] in ("put", "lb", "lbs", "ext", "comp", "chunk", "dup"):
+                made.add((ht[2], ht[3]))
+            elif ht[0] == "del" or (ht[0] == "vgdel" and ht[4] == "1"):
+                purposely = True
+        for k, v in sorted(keyed(S, "VG", 1).items()):
+            ms = [x for x in v if x.startswith("m=")][0][2:]
+            for m in ([] if ms == "-" else ms.split(",")):
+                t_, r_ = m.split(":")
+                if (t_, r_) not in SE and (t_, r_) in made and not purposely:
+                    bad.append(("dangling", "Vgroup %s names %s/%s, which does not exist in the file" % (k[0], t_, r_)))
+        # no linked-block descriptor that no block table names
+        for x in S:
+            if x.startswith("ORPH ") and x != "ORPH -":
+                bad.append(("orphan", "linked-block descriptors (tag 20) that no linked-block element names: refs " + x[5:]))
+        # dimension record x number-type size == length of the data element; dimension record == SDgetinfo
+        Rsd = {u[1]: u for u in (x.split() for x in Rl if x.startswith("SD "))}
+        for x in S:
+            if not x.startswith("SDC "):
+                continue
+            u = x.split()
+            if len(u) < 5 or not u[2].startswith("dims="):
+                continue
+            stats["SDC"] = stats.get("SDC", 0) + 1
+            dims = [int(v) for v in u[2][5:].split(",")] if u[2] != "dims=" else []
+            bits = int(u[3][5:])
+            dl_ = u[4][8:]
+            prod = 1
+            for d_ in dims:
+                prod *= d_
+            if dl_.isdigit() and bits > 0 and prod * bits // 8 != int(dl_):
+                bad.append(("SDD", "data set NDG %s: dimension record %s x %d bits = %d bytes, its data element holds %s" % (
+                    u[1], dims, bits, prod * bits // 8, dl_)))
+            if u[1] in Rsd:
+                rd = Rsd[u[1]][4][5:]
+                if rd != u[2][5:]:
+                    bad.append(("SDD", "data set NDG %s: dimension record says %s, SDgetinfo says %s" % (u[1], u[2][5:], rd)))
+        # directory in memory at close time == directory parsed from the bytes; what the writing session read just
+        # before the close == what the bytes hold
         g = owner.get(slot)
         if g is not None and g < len(groups):
             stats["MEM"] += 1
-            mem = groups[g]
+            mem = groups[g]["mem"]
             SB = [x.split()[1:] for x in S if x.startswith("B ")]
             SDd = [x.split()[1:] for x in S if x.startswith("D ")]
             if [m[:3] for m in mem] != SB:
                 bad.append(("MEM", "DD-block chain in memory %s, on disk %s" % ([m[:3] for m in mem], SB)))
             elif [d.split(",") for m in mem for d in m[3:]] != SDd:
                 bad.append(("MEM", "descriptor list in memory differs from the list parsed from the bytes"))
+            pre = groups[g]["pre"]
+            PE = keyed(pre, "PRE", 2)
+            for k in sorted(set(PE) | set(SE), key=lambda k: (int(k[0]), int(k[1]))):
+                if k not in PE or k not in SE:
+                    bad.append(("PRE", "element %s/%s seen only by %s" % (k[0], k[1], "the writing session" if k in PE else "h4read (closed file)")))
+                    continue
+                stats["PRE"] = stats.get("PRE", 0) + 1
+                if SE[k][1] == "?":
+                    continue
+                if PE[k] != SE[k]:
+                    bad.append(("PRE", "element %s/%s: the writing session read %s, the closed file holds %s" % (
+                        k[0], k[1], " ".join(PE[k])[:120], " ".join(SE[k])[:120])))
+            for pfx, spfx in (("PREVH", "VH"), ("PREVG", "VG")):
+                PV, SV = keyed(pre, pfx, 1), keyed(S, spfx, 1)
+                for k in sorted(set(PV) | set(SV), key=lambda k: int(k[0])):
+                    stats[pfx] = stats.get(pfx, 0) + 1
+                    if PV.get(k) != SV.get(k):
+                        bad.append((pfx, "%s %s: the writing session saw %s, the closed file holds %s" % (
+                            spfx, k[0], " ".join(PV.get(k, ["-"]))[:160], " ".join(SV.get(k, ["-"]))[:160])))
     return bad, stats
 
 
